@@ -66,7 +66,7 @@ pub fn judge(prog: &Program, d: Dialect, mo: ModernOpts, c: &mut Choices, st: &m
             _ => None,
         })
         .collect();
-    let case = |extra: Value| json!({"source": text, "dialect": d.name(), "options": mo.name(), "compiled": disasm(&compiled.code), "detail": extra});
+    let case = |extra: Value| json!({"source": text, "dialect": d.name(), "options": mo.name(), "compiled": disasm(&compiled.code), "compiled_hex": hex(&compiled.code.ser()), "detail": extra});
     let env_parts = extract_program_and_env(compiled.rich.clone());
     let mut matched = 0;
     for (k, name) in syms.iter() {
@@ -245,6 +245,18 @@ impl Prop for C13Prop {
         let d = Dialect::parse(v.case.get("dialect")?.as_str()?)?;
         let opts = v.case.get("options")?.as_str()?;
         let src = v.case.get("source")?.as_str()?;
+        // the other listed miscompilation of optimised cl23+ builds: the environment marker @ emitted
+        // as (q . 64) (C01 finding cl23-constant-folds-path-into-atom); same marker in the code
+        if d.stepping() >= 23 && opts.contains("opt=1") {
+            let code = v.case.get("compiled_hex").and_then(|h| h.as_str()).and_then(|h| hex::decode(h).ok()).and_then(|b| sut::consensus_deserialize(&b).ok()).or_else(|| {
+                sut::compile_modern(src, d.sigil(), ModernOpts { optimize: true, frontend_opt: false, post_opt: false }, "*verif*.clsp", &[]).ok().map(|c| c.code)
+            });
+            if let Some(code) = code {
+                if crate::props::c01::code_has_const_path_into_atom(&code) {
+                    return Some("cl23-constant-folds-path-into-atom");
+                }
+            }
+        }
         if d.stepping() < 23 || !opts.contains("opt=1") || !crate::props::c01::source_has_repeated_partial_op(src) {
             return None;
         }
